@@ -412,6 +412,55 @@ def run_scan_carry_objects(ctx, i, rng):
     ctx.check(np.allclose(np.asarray(ys), np.asarray(xs) * 3.0, **TOL), 'scan_carry:outputs', lambda: dict(case=desc))
 
 
+def run_broadcast_update(ctx, i, rng):
+  """State given the axis None is SHARED by all steps / indices: an update the body makes to it is an update of the one shared
+  object, exactly as in the Python loop (known finding C08-broadcast-state-update-dropped: the transforms treat it as a constant)."""
+  import jax.numpy as jnp
+  from flax import nnx
+  kind = ['scan', 'scan_stateaxes', 'vmap_stateaxes'][i % 3]
+  n = rng.randint(2, 4)
+  desc = dict(transform=kind, n=n)
+  with ctx.case('broadcast_update', i, desc, nontrivial=True):
+    class Cnt(nnx.Variable):
+      pass
+
+    class M(nnx.Module):
+      def __init__(self):
+        self.w = nnx.Param(jnp.arange(3.0))
+        self.c = Cnt(jnp.asarray(0.0))
+
+    xs = jnp.asarray(np.random.default_rng(i).uniform(0.5, 1.5, (n,)).astype(np.float32))
+
+    def body(m, x):
+      m.c.value = m.c.value + 1.0
+      if kind == 'scan':
+        m.w.value = m.w.value + x
+      return jnp.sum(m.w.value) * x + m.c.value
+
+    ref = M()
+    if kind == 'vmap_stateaxes':
+      stacked = jnp.stack([jnp.arange(3.0) + k for k in range(n)])
+      ref_ys = []
+      for k in range(n):
+        ref.w.value = stacked[k]
+        ref_ys.append(body(ref, xs[k]))
+      m = M()
+      m.w.value = stacked
+      ys = nnx.vmap(body, in_axes=(nnx.StateAxes({nnx.Param: 0, Cnt: None}), 0), out_axes=0)(m, xs)
+    else:
+      ref_ys = [body(ref, xs[k]) for k in range(n)]
+      m = M()
+      ia = None if kind == 'scan' else nnx.StateAxes({Cnt: None, nnx.Param: None})
+      ys = nnx.scan(body, in_axes=(ia, 0), out_axes=0)(m, xs)
+    ctx.op('nnx.%s(update of None-axis state)' % kind.split('_')[0])
+    tr = kind.split('_')[0]
+    ctx.check(np.allclose(float(m.c.value), float(ref.c.value)), 'state_after:broadcast_state_update_dropped:' + tr,
+              lambda: dict(case=desc, got=float(m.c.value), loop=float(ref.c.value)))
+    if kind == 'scan':
+      ctx.check(np.allclose(np.asarray(ys), np.asarray(jnp.stack(ref_ys)), **TOL), 'outputs:broadcast_state_update_dropped:' + tr,
+                lambda: dict(case=desc, got=np.asarray(ys).tolist(), loop=np.asarray(jnp.stack(ref_ys)).tolist()))
+
+
 def run_grad_history(ctx, i, rng):
   """One nnx.grad / value_and_grad function object reused over a call history that contains rejected calls (integer-dtype selected
   Variable, an exception in the user's loss, inconsistent aliasing): every accepted call must still equal jax.grad of the functional
@@ -565,6 +614,8 @@ def run(ctx):
     run_scan(ctx, i, ctx.rng('scan', i))
   for i in ctx.indices(110 if ctx.tier == 'quick' else 1600, 'grad'):
     run_grad(ctx, i, ctx.rng('grad', i))
+  for i in ctx.indices(9, 'broadcast_update'):
+    run_broadcast_update(ctx, i, ctx.rng('broadcast_update', i))
   for i in ctx.indices(42 if ctx.tier == 'quick' else 280, 'scan_carry'):
     run_scan_carry_objects(ctx, i, ctx.rng('scan_carry', i))
   for i in ctx.indices(60 if ctx.tier == 'quick' else 600, 'grad_history'):
